@@ -108,7 +108,7 @@ theorem eval_agree (t : IR) : ∀ (ρ ρ' : Env) (A A' : List Env), Agree (fv t)
   induction t
   case ref x => intro ρ ρ' A A' h _; simpa [eval] using h x (by simp [fv])
   case i32 | i64 | f32 | f64 | str | bool | na | anil | snil | tnil => intros; simp [eval]
-  case cast | ascribe | isNA | un | arrayLen | toArray | toStream | getField | getTupleElement | toSet | toDict =>
+  case cast | ascribe | isNA | un | arrayLen | toArray | toStream | getField | getTupleElement | toSet | toDict | applyFn =>
     rename_i ih
     intro ρ ρ' A A' h hA
     simp only [eval]
@@ -257,7 +257,7 @@ theorem eval_A_irrel (t : IR) : ∀ (ρ : Env) (A A' : List Env), usesAgg t = fa
     -- the body does not look at its aggregation scope either
     exact ihb ρ _ _ h
   case ref | i32 | i64 | f32 | f64 | str | bool | na | anil | snil | tnil => intros; simp [eval]
-  case cast | ascribe | isNA | un | arrayLen | toArray | toStream | getField | getTupleElement | toSet | toDict =>
+  case cast | ascribe | isNA | un | arrayLen | toArray | toStream | getField | getTupleElement | toSet | toDict | applyFn =>
     rename_i ih
     intro ρ A A' h
     simp only [usesAgg] at h
